@@ -95,7 +95,17 @@ fn main() {
             let sstr: String = script.iter().map(|&a| if a == 7 { 'm' } else { 'x' }).collect();
             let (s, code, sig) = in_child(|w| {
                 let mut inj = InjectorPP::new();
-                inj.when_called((e.target_ptr)()).will_execute((e.mk)(n));
+                // the target is written with exactly the arm's `func_type`: identical writing
+                // must be accepted
+                let inst = {
+                    let injr = &mut inj;
+                    quiet_catch(std::panic::AssertUnwindSafe(move || injr.when_called((e.target_ptr)()).will_execute((e.mk)(n))))
+                };
+                if let Err(m) = inst {
+                    let c = if m.contains("Signature mismatch") { "sig" } else { "other" };
+                    w.write_all(format!(" inst={}", c).as_bytes()).unwrap();
+                    return;
+                }
                 for &a in &script {
                     let a0 = e.assigns.load(Ordering::SeqCst);
                     let r0 = e.rets.load(Ordering::SeqCst);
